@@ -361,6 +361,33 @@ def _ob_range_roundtrip(k: int, t0: int, d1: int, d2: int, d3: int, d4: int) -> 
     return d.index_of(pos, imodes["leq"]) == k and d.index_of(pos, imodes["geq"]) == k
 
 
+def _ob_range_after_change(pn: int, t0: int, d1: int, u0: int, e1: int, which: int) -> bool:
+    """
+    pre: -LIM <= pn <= LIM
+    pre: 0 <= which < 3
+    post: __return__
+    """
+    imodes, _ = _modes()
+    ts = _ticks(2, t0, d1, 0, 0, 0)
+    us = _ticks(2, u0, e1, 0, 0, 0)
+    d = _range(ts)                       # ONE descriptor object for the whole history
+    mode = _pick(["leq", "less", "geq"], which)
+    try:
+        d.index_of(Q(pn, 16), imodes[mode])
+    except IndexError:
+        pass
+    # the stored ticks change behind the descriptor (linked array rewritten, other handle)
+    d._h5group.data["ticks"] = [Q(t, 16) for t in us]
+    if tuple(d.ticks) != tuple(Q(t, 16) for t in us):
+        return False
+    want = _list_index_oracle(mode, us, pn)
+    try:
+        got = d.index_of(Q(pn, 16), imodes[mode])
+    except IndexError:
+        return want[0] == "none"
+    return want[0] == "idx" and got == want[1]
+
+
 # ---------------------------------------------------------------------------
 # G/H. SetDimension                    PART = (mode, number of labels)
 # coordinates x_i = i, 0 <= i < L (L = 0: no labels stored -> unbounded axis)
@@ -735,6 +762,9 @@ OBLIGATIONS = [
     Ob("range_roundtrip", _ob_range_roundtrip, timeout=300,
        partition_by_tier={"quick": [1, 2, 3], "thorough": [1, 2, 3, 4, 5]},
        functions=[_R + "tick_at", _R + "index_of"]),
+    Ob("range_index_after_ticks_change", _ob_range_after_change, timeout=300,
+       functions=[_R + "index_of", _R + "ticks"],
+       outside="history of length 2 on one descriptor object"),
     Ob("set_index_of", _ob_set_index, timeout=200,
        partition=[(m, L) for m in IM for L in (0, 1, 2, 4)],
        functions=[_T + "index_of", _T + "labels"], replay=_replay_set_index),
